@@ -56,12 +56,13 @@ def run(ctx):
     s2 = ctx.drive(["c20", "--mode", "sweep", "--in", lp, "--out", sweep, "--stride", str(stride)])
     ctx.extra["driver"] = s
     ctx.extra["sweep"] = s2
-    ctx.evaluations = s["lines"] - s["scenarios"] + s2["itf8_evaluated"] + s2["ltf8_evaluated"]
-    ctx.distinct = s["itf8_values"] + s["ltf8_values"]
+    # (a driver that died inside the library leaves a crash event in its trace and no summary)
+    ctx.evaluations = s["lines"] - s["scenarios"] + s2.get("itf8_evaluated", 0) + s2.get("ltf8_evaluated", 0)
+    ctx.distinct = s.get("itf8_values", 0) + s.get("ltf8_values", 0)
     ctx.exhaustive = False
     ctx.validate("Tf8", "Tf8Trace", "Tf8Trace.cfg", trace)
     ctx.validate("Tf8", "Tf8Trace", "Tf8Trace.cfg", sweep)
-    if s2["itf8_disagree"] + s2["ltf8_disagree"] > 0 and not ctx.rejected:
+    if s2.get("itf8_disagree", 0) + s2.get("ltf8_disagree", 0) > 0 and not ctx.rejected:
         from lib.vrun import Infra
         raise Infra("sweep interpreter disagrees with the code but TLC accepts the recorded calls: interpreter defect")
     ev = [json.loads(x) for x in open(trace)]
